@@ -1093,7 +1093,13 @@ def sync_do_slice(
         end = offset + (slice_number + 1) * items_per_slice
         tmp = seq[start:end]
 
-        if fill_with is not None and slice_number >= slices_with_extra:
+        # Only slices that are one item short get the fill value. When the
+        # length divides evenly no slice is short and nothing is appended.
+        if (
+            fill_with is not None
+            and slices_with_extra
+            and slice_number >= slices_with_extra
+        ):
             tmp.append(fill_with)
 
         yield tmp
